@@ -379,10 +379,10 @@ def grad_info(gel, bbox, vb, dense):
     if inv is None:
         return paint, []
     if dense:
-        pts = [((4 * i + 2) / 8, (4 * j + 2) / 8) for i in range(2 * (vb[0] - 2), 2 * (vb[0] + vb[2] + 2))
+        pts = [((4 * i + 1) / 8, (4 * j + 2) / 8) for i in range(2 * (vb[0] - 2), 2 * (vb[0] + vb[2] + 2))
                for j in range(2 * (vb[1] - 2), 2 * (vb[1] + vb[3] + 2))]
     else:
-        pts = [((8 * i + 2) / 8, (8 * j + 6) / 8) for i in range(vb[0] - 2, vb[0] + vb[2] + 2)
+        pts = [((8 * i + 2) / 8, (8 * j + 5) / 8) for i in range(vb[0] - 2, vb[0] + vb[2] + 2)
                for j in range(vb[1] - 2, vb[1] + vb[3] + 2)]
     for (px, py) in pts:
         qx = inv[0] * px + inv[2] * py + inv[4]
